@@ -541,26 +541,45 @@ def _forward_names(f, local):
 
 def f16(led, rid, ctx):
     """SIBLINGS: both declaration kinds merge an alias into the class of the variable it refers to
-    with the same argument order (the alias first)"""
+    with the same argument order (the alias first); arguments of a shared helper are traced to the
+    call sites of the helper"""
     b = ctx.bin
-    fs = [f for d, f in b.fns.items() if d.endswith("merge_equivalences::run")]
-    if len(fs) != 1:
-        raise AnchorMissing("merge_equivalences::run")
-    f = fs[0]
-    R = resolver(f)
+    fs = [f for d, f in b.fns.items() if "merge_equivalences.rs" in f.file and "/tests" not in f.file]
+    if not fs:
+        raise AnchorMissing("merge_equivalences.rs")
     n = 0
-    for c in f.calls_named("merge"):
-        if len(c.args) < 3:
-            continue
-        n += 1
-        a1, a2 = show(R.operand(c.args[1])), show(R.operand(c.args[2]))
-        own = lambda s_: ".id" in s_ and "expr" not in s_
-        ref = lambda s_: "expr" in s_ or "VarParIdentifier" in s_
-        led.check(own(a1) and ref(a2), rid, "merge:%s" % ("literal" if "literal" in show(R.operand(c.args[0])) else "integer"),
-                  c.span, "merge(declared id, referenced id)",
-                  "merge_equivalences merges with the arguments (%s, %s): the alias and the variable it refers "
-                  "to are swapped relative to the sibling arm, earlier aliases of the class keep a stale class "
-                  "and are bound to an unrelated variable" % (a1[:60], a2[:60]))
+    own = lambda s_: ".id" in s_ and "expr" not in s_
+    ref = lambda s_: "expr" in s_ or "VarParIdentifier" in s_
+
+    def origins(g, e, depth=0):
+        """source expressions of `e` in g, through the parameters of local helpers"""
+        e0 = peel(e, calls=None)
+        while e0.k == "call" and e0.a.name in ("clone", "into", "as_ref", "borrow", "to_owned") and e0.b:
+            e0 = peel(e0.b[0], calls=None)
+        if e0.k == "arg" and depth < 3:
+            outs = []
+            for h in fs:
+                Rh = None
+                for c2 in h.calls:
+                    if (c2.resolved or c2.defn) == g.defn and len(c2.args) >= e0.a:
+                        Rh = Rh or resolver(h)
+                        outs += origins(h, Rh.operand(c2.args[e0.a - 1]), depth + 1)
+            if outs:
+                return outs
+        return [show(e)]
+
+    for f in fs:
+        R = resolver(f)
+        for c in f.calls_named("merge"):
+            if len(c.args) < 3 or "Equivalences" not in (c.self_ty or c.target_def or ""):
+                continue
+            for a1 in origins(f, R.operand(c.args[1])):
+                for a2 in origins(f, R.operand(c.args[2])):
+                    n += 1
+                    led.check(own(a1) and ref(a2), rid, "merge:%s:%d" % (f.name, n), c.span, "merge(declared id, referenced id)",
+                              "merge_equivalences merges with the arguments (%s, %s): the alias and the variable it refers "
+                              "to are swapped, earlier aliases of the class keep a stale class "
+                              "and are bound to an unrelated variable" % (a1[:60], a2[:60]))
     led.floor(rid, "equivalence merges", n, 2)
 
 
